@@ -631,15 +631,6 @@ impl World for Acct {
     }
 }
 
-/// TEMPORARY (tuning): depth override through the environment.
-fn dpt(world: &str, d: usize) -> usize {
-    std::env::var(format!("C20A_{}", world.replace('-', "_"))).ok().and_then(|x| x.parse().ok()).unwrap_or(d)
-}
-/// TEMPORARY (tuning): wall cap multiplier.
-fn wl(s: u64) -> u64 {
-    s * std::env::var("C20A_WALLX").ok().and_then(|x| x.parse().ok()).unwrap_or(1)
-}
-
 fn add(ctx: u8, signers: &[u8], policies: &[u8]) -> Op {
     Op::AddRule { ctx, signers: signers.to_vec(), policies: policies.to_vec(), valid: None }
 }
@@ -650,8 +641,7 @@ fn acct_worlds(tier: Tier) -> Vec<(Acct, Bounds)> {
     let mut out = vec![];
 
     // (a) rule life cycle: ids, count, per-type lists, names / expiry, fingerprints across
-    //     context types. Third seed: the constructor's rule has expired (the getters list
-    //     expired rules too).
+    //     context types
     {
         let mut adds: Vec<(u8, Vec<u8>, Vec<u8>)> = vec![
             (0, vec![0], vec![]),     // equals the constructor's rule while that one lives
@@ -671,21 +661,36 @@ fn acct_worlds(tier: Tier) -> Vec<(Acct, Bounds)> {
                 name: "acct-rule-lifecycle",
                 ns: 3,
                 np: 2,
-                seeds: vec![
-                    ("constructor-rule", vec![]),
-                    ("emptied", vec![Op::RemoveRule(0)]),
-                    ("constructor-rule-expired", vec![Op::SetValid { id: 0, valid: Some(START + 5) }, Op::Advance(20)]),
-                ],
-                adds,
+                seeds: vec![("constructor-rule", vec![]), ("emptied", vec![Op::RemoveRule(0)])],
+                adds: adds.clone(),
                 remove_rule: true,
                 renames: if th { vec![1, 2] } else { vec![2] },
-                valids: if th { vec![later, None] } else { vec![later] },
+                valids: if th { vec![later, None] } else { vec![] }, // quick: expiry edits are left to acct-expired-rule
                 edit_signers: vec![],
                 edit_policies: vec![],
                 max_targets: 8,
                 leaf_adds: false,
             },
-            Bounds::new(dpt("acct-rule-lifecycle", 5), wl(tier.pick(8, 90))),
+            Bounds::new(5, tier.pick(15, 120)),
+        ));
+        // the constructor's rule has expired (the getters and the count cover expired rules too;
+        // every edit works on them as on any other rule)
+        out.push((
+            Acct {
+                name: "acct-expired-rule",
+                ns: 3,
+                np: 2,
+                seeds: vec![("constructor-rule-expired", vec![Op::SetValid { id: 0, valid: Some(START + 5) }, Op::Advance(20)])],
+                adds,
+                remove_rule: true,
+                renames: vec![1, 2],
+                valids: vec![later, None],
+                edit_signers: vec![1],
+                edit_policies: vec![0],
+                max_targets: 8,
+                leaf_adds: false,
+            },
+            Bounds::new(tier.pick(3, 4), tier.pick(20, 60)),
         ));
     }
     // (a') the same registry, lean alphabet (three rules of one type that exclude / admit each
@@ -706,7 +711,7 @@ fn acct_worlds(tier: Tier) -> Vec<(Acct, Bounds)> {
                 max_targets: 8,
                 leaf_adds: false,
             },
-            Bounds::new(dpt("acct-rule-lifecycle-deep", tier.pick(7, 9)), wl(tier.pick(4, 60))),
+            Bounds::new(tier.pick(7, 9), tier.pick(10, 40)),
         ));
     }
 
@@ -733,7 +738,7 @@ fn acct_worlds(tier: Tier) -> Vec<(Acct, Bounds)> {
                 max_targets: 3,
                 leaf_adds: true,
             },
-            Bounds::new(dpt("acct-signer-policy-edits", tier.pick(5, 7)), wl(tier.pick(6, 60))),
+            Bounds::new(tier.pick(5, 7), tier.pick(10, 60)),
         ));
     }
     // (b') thorough only: the same with rules added in between (new ids, third rule)
@@ -753,7 +758,7 @@ fn acct_worlds(tier: Tier) -> Vec<(Acct, Bounds)> {
                 max_targets: 3,
                 leaf_adds: false,
             },
-            Bounds::new(dpt("acct-signer-policy-edits-growing", 5), wl(45)),
+            Bounds::new(5, 40),
         ));
     }
 
@@ -798,7 +803,7 @@ fn acct_worlds(tier: Tier) -> Vec<(Acct, Bounds)> {
                 max_targets: 3,
                 leaf_adds: false,
             },
-            Bounds::new(dpt("acct-limit-rules", tier.pick(3, 4)), wl(tier.pick(2, 10))),
+            Bounds::new(tier.pick(3, 4), tier.pick(20, 60)),
         ));
     }
 
@@ -824,7 +829,7 @@ fn acct_worlds(tier: Tier) -> Vec<(Acct, Bounds)> {
                 max_targets: 2,
                 leaf_adds: false,
             },
-            Bounds::new(dpt("acct-limit-signers", tier.pick(3, 4)), wl(tier.pick(2, 10))),
+            Bounds::new(tier.pick(3, 4), tier.pick(20, 60)),
         ));
     }
 
@@ -850,7 +855,7 @@ fn acct_worlds(tier: Tier) -> Vec<(Acct, Bounds)> {
                 max_targets: 2,
                 leaf_adds: false,
             },
-            Bounds::new(dpt("acct-limit-policies", tier.pick(3, 4)), wl(tier.pick(2, 10))),
+            Bounds::new(tier.pick(3, 4), tier.pick(20, 60)),
         ));
     }
     out
@@ -1087,7 +1092,7 @@ fn comp_worlds(tier: Tier) -> Vec<(Comp, Bounds)> {
         }
         out.push((
             Comp { name: "compliance-modules", nm: 4, seeds: vec![("empty".into(), vec![])], alphabet, limit: false, query: vec![0, 1, 2, 3] },
-            Bounds::new(dpt("compliance-modules", 5), wl(tier.pick(5, 40))),
+            Bounds::new(tier.pick(5, 6), tier.pick(10, 60)),
         ));
     }
     // (a') two hooks x three modules, long histories (the hooks are independent lists; 16 x 16
@@ -1101,7 +1106,7 @@ fn comp_worlds(tier: Tier) -> Vec<(Comp, Bounds)> {
         }
         out.push((
             Comp { name: "compliance-modules-deep", nm: 4, seeds: vec![("empty".into(), vec![])], alphabet, limit: false, query: vec![0, 1, 2, 3] },
-            Bounds::new(dpt("compliance-modules-deep", tier.pick(7, 9)), wl(tier.pick(3, 20))),
+            Bounds::new(tier.pick(7, 9), tier.pick(10, 30)),
         ));
     }
     // (b) one hook with 19 modules (one seed per hook variant); the next hook is empty
@@ -1113,7 +1118,7 @@ fn comp_worlds(tier: Tier) -> Vec<(Comp, Bounds)> {
         let alphabet = vec![(0, 19), (0, 20), (0, 21), (0, 0), (0, 9), (0, 18), (1, 0), (1, 19)];
         out.push((
             Comp { name: "compliance-modules-limit", nm: 22, seeds, alphabet, limit: true, query: vec![0, 9, 18, 19, 20, 21] },
-            Bounds::new(dpt("compliance-modules-limit", tier.pick(3, 4)), wl(tier.pick(2, 10))),
+            Bounds::new(tier.pick(3, 4), tier.pick(20, 60)),
         ));
     }
     out
@@ -1156,14 +1161,5 @@ pub fn run(tier: Tier, r: &mut Runner) {
             "comp.refused.limit-exact",
             "comp.accepted-filling-limit.modules",
         ]);
-    }
-    if std::env::var("C20A_ONLY").is_ok() {
-        // TEMPORARY (tuning)
-        if r.exploring() {
-            let old = std::mem::replace(r, Runner::Explore(vh::report::Report::new("C20", tier, "model_checking")));
-            if let Runner::Explore(rep) = old {
-                std::process::exit(rep.finish());
-            }
-        }
     }
 }
